@@ -86,8 +86,7 @@ let handle (f : String.t array) : String.t =
        let vr = classify rq in
        let spec_in = designates_in vcmp_simple vmatch_simple cfg db rq.rq_name vr f0 vro in
        let spec = designates vcmp_simple vmatch_simple cfg db flavors depth vro rq in
-       let wfok = wf_db db &&
-                  List.for_all (fun fl -> distinct_versions db rq.rq_name fl) flavors in
+       let wfok = wf_db db in
        String.concat "\t" ["ok"; pref0; show_entries vro; show_found wf_; show_reason wr; rf; rr;
                            show_found spec_in; show_found spec; field_of_bool wfok])
   | _ -> failwith "unknown op"
